@@ -115,4 +115,11 @@ let () =
   register "jscan" (function [t] -> string_of_bool (JsonSpec.no_lone_surrogate_escape (str_of_hex t)) | _ -> "BADARGS");
   register "jcost" (function [t] -> decimal_of_n (Json.xparse_cost Json.xmax_depth (str_of_hex t)) | _ -> "BADARGS");
   register "jsizes" (function [] -> decimal_of_n Json.coq_VALUE_SIZE ^ " " ^ decimal_of_n Json.coq_MEMBER_SIZE | _ -> "BADARGS");
+  (* jps: parse then serialise, all inside the model (used for the in-Coq vm_compute cross-check of the extraction) *)
+  register "jps" (function [t] ->
+    (match Json.xparse Json.xmax_depth (str_of_hex t) with
+     | Prelude.Ok v -> "ok " ^ Stdlib.String.concat ";" (Stdlib.List.map (fun c -> string_of_int (int_of_n c)) (Json.xserialize_pretty (n_of_int 1) v))
+     | Prelude.Err e -> "err " ^ string_of_int (int_of_n e)
+     | Prelude.Crash w -> "crash " ^ string_of_int (int_of_n w))
+    | _ -> "BADARGS");
   register "jisnum" (function [t] -> string_of_bool (Json.is_json_number (str_of_hex t)) | _ -> "BADARGS")
